@@ -103,6 +103,12 @@ end
 
 def newick (nm : Naming) (t : STree) : String := newickBody nm t ++ ";"
 
+/-- `_check_consistency_names` (after the repair of the internal-name test): leaf names and
+    internal names must each be free of repetitions, else KeyError -/
+def namesOk (T : STree) (nm : Naming) : Bool :=
+  let names := fun (ps : List Taxon) => ps.filterMap (T.nameAt nm)
+  (names T.leafTaxa).Nodup && (names T.internalTaxa).Nodup
+
 end STree
 
 /-! ### taxa -/
